@@ -15,6 +15,8 @@
     refuses it), or popping an exhausted frame ([Postvisit], and [Done] when the stack
     becomes empty). *)
 From WG Require Import Base.Prelude.
+
+Module DfsM.
 Local Open Scope N_scope.
 
 Definition graph := list (list N).
@@ -168,14 +170,19 @@ Definition dfs_order_spec (g : graph) : option (list (N * N * N * N)) :=
   | _ => None
   end.
 
-(** ... and as implemented: [DfsOrder::next] reads [self.root] after it has been advanced
-    past the root of the current tree, so every non-root node reports [root + 1] *)
-Definition dfs_order (g : graph) : option (list (N * N * N * N)) :=
+(** ... as implemented BEFORE the repair ("fix: DfsOrder reported the wrong root ..."):
+    [DfsOrder::next] read [self.root] after it had been advanced past the root of the
+    current tree, so every non-root node reported [root + 1].  Kept to state the
+    refutation. *)
+Definition dfs_order_prefix (g : graph) : option (list (N * N * N * N)) :=
   match dfs_order_spec g with
   | Some l =>
     Some (map (fun '(r, p, v, d) => (if d =? 0 then r else r + 1, p, v, d)) l)
   | None => None
   end.
+
+(** the iterator as implemented now *)
+Definition dfs_order (g : graph) : option (list (N * N * N * N)) := dfs_order_spec g.
 
 (** the pure filters used by the harness: kind, two parameters *)
 Definition dfs_filter (kind a b : N) : vfilter := fun node pred root depth =>
@@ -291,3 +298,7 @@ Definition is_perm_nodes (g : graph) (order : list N) : bool :=
 
 Definition check_topsort (g : graph) (order : list N) : bool :=
   is_perm_nodes g order && arcs_forward g order.
+
+
+End DfsM.
+Export DfsM.
